@@ -16,6 +16,10 @@ def run(ctx, res):
     # moved out of it have been marked empty (Drop discipline of the owning iterators)
     structural.check_owning_drops(ctx, res, "C07")
     structural.no_bucket_relocation(ctx, res, "C07")
+    # the shape of the list itself: the splice / unlink primitives write exactly the links of a doubly-linked splice, and every splice
+    # puts the node between the seal and the seal's current neighbour (C05.3 rules; a node spliced next to itself or next to a stale
+    # neighbour breaks "mirror-image traversals of exactly len() entries")
+    structural.c05(ctx, res, only_list_shape=True)
     # an entry that is evicted before it is promoted / a duplicate evicted before it is replaced leaves a freed-slot node in the
     # list: the ordering obligations of C03 are necessary conditions of list/table coherence too
     d = e3.run(ctx)
